@@ -162,6 +162,17 @@ func c15Build(c c15Config) *c15World {
 					down(400)
 				case "after-flush":
 					ctx.ResponseWriter().Flush() // commits the implicit 200
+				case "inside-a-before-function":
+					// the panic is raised by a function the handler registered to run before the first write, while
+					// the handler writes: the status has not reached the underlying writer, so the client gets 500
+					ctx.ResponseWriter().Before(func(flamego.ResponseWriter) {
+						w.events = append(w.events, "before-function")
+						if k := ctx.Request().Header.Get("X-Kind"); k != "" {
+							c15PanicWith(k)
+						}
+						c.doPanic()
+					})
+					_, _ = ctx.ResponseWriter().Write([]byte("partial"))
 				case "after-cancelling-the-request-context":
 					// the request goes on under a context of the handler's making, which is cancelled by the time
 					// of the panic (a deadline that ran out): no status has been sent, so the client gets 500
@@ -413,7 +424,7 @@ func c15Configs(thorough bool) []c15Config {
 	if thorough {
 		maxN = 5
 	}
-	phases := []string{"before-write", "after-status", "after-body", "after-next", "unresolved-dependency", "after-failed-hijack-and-push", "after-flush", "deep-recursion", "after-next-unanswered", "after-cancelling-the-request-context"}
+	phases := []string{"before-write", "after-status", "after-body", "after-next", "unresolved-dependency", "after-failed-hijack-and-push", "after-flush", "deep-recursion", "after-next-unanswered", "after-cancelling-the-request-context", "inside-a-before-function"}
 	values := []string{"string", "error", "runtime", "struct", "abort", "nil-error-pointer", "panicking-stringer"}
 	styles := []string{"use", "route", "group", "use-action", "route-action"}
 	for n := 2; n <= maxN; n++ {
@@ -425,7 +436,7 @@ func c15Configs(thorough bool) []c15Config {
 							if ph == "unresolved-dependency" && v != "string" {
 								continue
 							}
-							if (ph == "after-failed-hijack-and-push" || ph == "after-flush" || ph == "deep-recursion" || ph == "after-next-unanswered" || ph == "after-cancelling-the-request-context") && v != "string" && v != "runtime" && !thorough {
+							if (ph == "after-failed-hijack-and-push" || ph == "after-flush" || ph == "deep-recursion" || ph == "after-next-unanswered" || ph == "after-cancelling-the-request-context" || ph == "inside-a-before-function") && v != "string" && v != "runtime" && !thorough {
 								continue
 							}
 							for _, st := range styles {
